@@ -932,6 +932,15 @@ class AdjointHarness(MultiplyOpHarness):
                     raise Unsupported("filtered adjoint")
                 seen.append(1)
                 return STup([e.eval(ce.elt, cenv)], None, True)
+
+            def m_for(s, e, stmt, env):
+                # explicit-loop form of the same per-term map: the body is executed for the arbitrary term
+                e.assign(stmt.target, STup([STup([SI(x) for x in p]), coef]), env)
+                seen.append(1)
+                try:
+                    e.exec_block(stmt.body, env)
+                except (_Cont, _Brk):
+                    raise Unsupported("continue / break in a per-term loop")
         ops = STup([OpModel(kd, i) for i, kd in enumerate(layout)])
 
         class Self(Model):
@@ -1014,6 +1023,14 @@ def unit_neg(layout, timeout_ms=20000):
                     raise Unsupported("filtered negation")
                 seen.append(1)
                 return STup([e.eval(ce.elt, cenv)], None, True)
+
+            def m_for(s, e, stmt, env):
+                e.assign(stmt.target, STup([STup([SI(x) for x in p]), coef]), env)
+                seen.append(1)
+                try:
+                    e.exec_block(stmt.body, env)
+                except (_Cont, _Brk):
+                    raise Unsupported("continue / break in a per-term loop")
 
         class Self(Model):
             def m_getattr(s, e, name):
